@@ -45,14 +45,15 @@ CHECKS = {
              'the concrete tree (every node operational, every interleaving; members are arbitrary environments constrained only by '
              'being behaviours of the member subtrees) with pairwise distinct input uids, each message (u, y) put on the output queue '
              'answers an earlier input (u, x) with y in outs(t)(x) - computed from that request\'s own input - and no uid is answered '
-             'twice. C02_node_worker / _ensemble / _switch: the node contracts (at most once per received message, exactly once at '
+             'twice; C02_tree_exactly_one: in every behaviour that has come to rest every request has exactly one answer. '
+             'C02_node_worker / _ensemble / _switch: the node contracts (at most once per received message, exactly once at '
              'rest) for every action list; C02_seq(_complete) composes them; C02_uid_distinct_needed: a kernel-checked run in which a '
              'REUSED uid makes a fail-fast ensemble answer request 2 with member B\'s result for request 1 (F2\'s mechanism). Tie on '
              'every run: the real Server (thread servlets) runs generated trees with 2-6 concurrent call/stream callers under the '
              'deterministic scheduler and an adversarial id allocator; every outcome is checked against `outs` by the compiled Lean '
              'driver, the queue/call events of every node are replayed through its operational model, monitors evaluate the property '
              'on each run; a small sample with real worker processes is compared with `outs` too.',
-        note=E1 + 'exactly-once at rest is proved per node and along sequences, not lifted to whole trees; the ledger layer (uid minting, '
+        note=E1 + 'that the tree does come to rest (liveness) is not proved, only monitored; the ledger layer (uid minting, '
              'capacity, gather thread, timeouts) is the Ledger model of C06/C07; process servlets: OS schedule only sampled.',
         ref='§5 C02', engine='E1-detsched+lean'),
     'C04': dict(
